@@ -909,10 +909,29 @@ pub fn replay(case: &Value) -> Vec<Violation> {
             };
             for k in 0..span {
                 let idx = start + k * n;
-                let st = std::process::Command::new(&exe).args(["worker", "C07", "one", &group, &idx.to_string(), tier]).stdout(std::process::Stdio::null()).stderr(std::process::Stdio::null()).status();
-                if let Ok(st) = st {
-                    if !st.success() {
+                let Ok(mut child) = std::process::Command::new(&exe).args(["worker", "C07", "one", &group, &idx.to_string(), tier]).stdout(std::process::Stdio::null()).stderr(std::process::Stdio::null()).spawn() else { continue };
+                // a single case takes milliseconds; one that is still running after 20 s does not return
+                let t0 = std::time::Instant::now();
+                let st = loop {
+                    match child.try_wait() {
+                        Ok(Some(st)) => break Some(st),
+                        Ok(None) if t0.elapsed() > Duration::from_secs(20) => {
+                            let _ = child.kill();
+                            let _ = child.wait();
+                            break None;
+                        }
+                        Ok(None) => std::thread::sleep(Duration::from_millis(5)),
+                        Err(_) => break None,
+                    }
+                };
+                match st {
+                    Some(st) if st.success() => {}
+                    Some(st) => {
                         l.violation(Violation::new("worker", "process_died", group.clone(), group.clone(), format!("case {group} #{idx} kills the process: {st}"), case.clone()));
+                        break;
+                    }
+                    None => {
+                        l.violation(Violation::new("worker", "no_return_within_watchdog", group.clone(), group.clone(), format!("case {group} #{idx} does not return (killed after 20 s)"), case.clone()));
                         break;
                     }
                 }
